@@ -243,6 +243,9 @@ func (ex *Explorer) runPath(s *Solver, it workItem) {
 		in.checkGlobalsUnchanged()
 	}
 
+	if in.epoch {
+		in.stat("no-nondeterminism-source").Checked++
+	}
 	if end.kind == endBudget {
 		st := in.stat("terminates-within-budget")
 		st.Checked++
@@ -730,5 +733,10 @@ func (in *Interp) onTargetPanic(r *pathEnd) {
 func (in *Interp) noteNondet(what string) {
 	if in.epoch {
 		in.nondet = append(in.nondet, what)
+		st := in.stat("no-nondeterminism-source")
+		st.Violated++
+		if len(in.nondet) == 1 {
+			in.candidate("no-nondeterminism-source", what, what, in.model)
+		}
 	}
 }
